@@ -837,6 +837,15 @@ class Interp:
                 return AV(base.deps, "val")
             # method or column: decided at call time; keep a bound-method marker
             return self.table_col(base, [attr], maybe_method=attr)
+        if k == "row":
+            tab = base.data
+            tag, names = tab.data
+            if attr in ("Index", "name"):
+                return AV(frozenset(f"{tag}.{t}.@index" for t in names), "val", None, sh.S(sh.PURE))
+            if attr.startswith("__") or attr in ("index", "values", "items", "keys", "to_dict", "copy"):
+                return AV(base.deps, "val")
+            c = self.table_col(tab, [attr])
+            return c
         if k == "module":
             full = base.data + "." + attr
             if self.repo.has_module(full):
@@ -960,6 +969,11 @@ class Interp:
                 return self.table_col(base, cols)
             # row selection (mask / slice): same table, filtered -> copy semantics in pandas
             return AV(base.deps | idx.deps, "table", base.data, sh.TOP, base.via, None)
+        if k == "row":
+            cols = col_keys(idx)
+            if cols:
+                return self.table_col(base.data, cols)
+            return AV(base.deps | idx.deps, "val")
         if k == "tableloc":
             tag, names, how = base.data
             cols = loc_cols(idx)
@@ -1224,6 +1238,9 @@ class Interp:
         for v in vals:
             deps |= deps_of(v)
         nonconst = [v for v in vals if not v.is_const]
+        if isinstance(node.op, ast.Or) and vals and vals[0].is_const and vals[0].data is not NOFOLD and not vals[0].data \
+                and len(vals) == 2:
+            return vals[1]   # "None or default"
         if len(nonconst) == 1 and isinstance(node.op, ast.Or):
             # "x or default"
             return join_all(vals)
@@ -1283,6 +1300,11 @@ class Interp:
                     return const(a >= b)
             except Exception:
                 pass
+        if len(rs) == 1 and isinstance(node.ops[0], (ast.Eq, ast.NotEq)):
+            # a quantity with a physical unit never equals a string literal (`sn_mva != "max_i_ka"`)
+            for a_, b_ in ((l, rs[0]), (rs[0], l)):
+                if b_.is_const and isinstance(b_.data, str) and a_.kind == "val" and _has_units(a_):
+                    return const(isinstance(node.ops[0], ast.NotEq))
         if len(rs) == 1 and isinstance(node.ops[0], (ast.Is, ast.IsNot)) and rs[0].is_const and rs[0].data is None:
             if l.kind not in ("val", "const", "bound", "colormeth", "ext"):
                 return const(isinstance(node.ops[0], ast.IsNot))
@@ -1561,6 +1583,8 @@ class Interp:
                 if len(args) > 1:
                     return join(c, args[1])
                 return c
+        if meth in ("iterrows", "itertuples"):
+            return AV(frozenset(alld) | whole, "rowiter", (base, meth), sh.TOP, base.via | frozenset([meth]))
         if meth in ("items", "iterrows", "itertuples", "keys", "to_dict", "to_numpy", "isnull", "isna", "notnull",
                     "any", "all", "sum", "max", "min", "count", "duplicated", "equals", "memory_usage", "nunique"):
             return AV(frozenset(alld) | whole, "val", None, sh.TOP, base.via | frozenset([meth]))
@@ -2027,6 +2051,16 @@ def mask_shape(l: AV, r: AV):
     return sh.S(sh.PURE)
 
 
+def _has_units(a: AV) -> bool:
+    s_ = a.shape
+    if s_ is sh.TOP or sh.is_bad(s_) or not s_:
+        return False
+    try:
+        return all(m.exp("V") != 0 or m.exp("A") != 0 for m in s_)
+    except Exception:
+        return False
+
+
 def iter_items(it: AV) -> Optional[List[AV]]:
     if it.kind in ("list", "tuple"):
         return list(it.data)
@@ -2046,6 +2080,14 @@ def iter_items(it: AV) -> Optional[List[AV]]:
 def element_of(it: AV) -> AV:
     if it.kind == "alist":
         return it.data
+    if it.kind == "rowiter":
+        base, meth = it.data
+        row = AV(it.deps, "row", base, sh.TOP, it.via)
+        if meth == "iterrows":
+            tag, names = base.data
+            idx = AV(frozenset(f"{tag}.{t}.@index" for t in names), "val", None, sh.S(sh.PURE))
+            return AV(E, "tuple", [idx, row])
+        return row
     if it.kind == "zip":
         return AV(E, "tuple", [element_of(x) for x in it.data])
     if it.kind in ("list", "tuple"):
